@@ -180,9 +180,11 @@ def run(prop, tier):
         pg0 = sc.dcp(P.progsets[0])
         # one effect row with an explicit interaction outcome, a non-zero baseline and an uncertainty of 0 (sampling then rewrites the
         # interaction text from its cache without changing any value)
-        for co in pg0.covouts.values():
+        third_ = None
+        for co in sorted(pg0.covouts.values(), key=lambda c_: -min(len(c_.progs), 3)):  # (an effect row of three programs if there is one: removing the third leaves the pair's outcome in place)
             if len(co.progs) >= 2:
                 names_ = list(co.progs.keys())[:2]
+                third_ = (list(co.progs.keys()) + [None])[2]
                 base_ = float(co.baseline) if co.baseline else 0.0625
                 co.__init__(co.par, co.pop, co.progs, cov_interaction=co.cov_interaction, imp_interaction="%s+%s=%r" % (names_[0], names_[1], base_ + 0.123456789), uncertainty=0.0, baseline=base_)  # (more digits than a rounded re-write keeps)
                 cov["explicit_interaction_row"] = "%s|%s" % (co.par, co.pop)
@@ -252,6 +254,27 @@ def run(prop, tier):
                 rid += 1
             except Exception as ex:
                 V.violation("C16 export/import after history raised %s" % type(ex).__name__, dict(model=name, history=h["hist"], error=str(ex)[:300]))
+        # pinned editing operations (whatever the sample of histories above contains): removing the third program of the effect row with the
+        # explicit interaction outcome; removing a parameter with effects by its full name and by its code name
+        pins = []
+        if third_:
+            pins.append(("remove_program", third_))
+        epar = sorted({par_ for (par_, _pop) in pg0.covouts.keys()})[0]
+        pins += [("remove_par", epar), ("remove_par", P.framework.get_label(epar))]
+        for (op, arg) in pins:
+            pg = sc.dcp(pg0)
+            try:
+                getattr(pg, op)(arg)
+                want_eff = [e for e in book_sets(pg0)["effects"] if not ((op == "remove_program" and e.split("|")[2] == arg) or (op == "remove_par" and e.split("|")[0] == epar))]
+                records.append(dict(id=rid, kind="content", want=sorted(want_eff), got=book_sets(pg)["effects"]))
+                index[rid] = dict(label=dict(model=name, history=[[op, arg]]), what="visible effects after the operation", extra=sorted(set(book_sets(pg)["effects"]) - set(want_eff))[:5], missing=sorted(set(want_eff) - set(book_sets(pg)["effects"]))[:5])
+                rid += 1
+                pg2 = at.ProgramSet.from_spreadsheet(pg.to_spreadsheet(), framework=P.framework, data=P.data, _allow_missing_data=True)
+                records.append(dict(id=rid, kind="same", a=dg(progset_content(pg)), b=dg(progset_content(pg2))))
+                index[rid] = dict(label=dict(model=name, history=[[op, arg]]), what="program set vs rebuilt from its own export (visible content)")
+                rid += 1
+            except Exception as ex:
+                V.violation("C16 %s raised %s" % (op, type(ex).__name__), dict(model=name, history=[[op, arg]], error=str(ex)[:300]))
     # ================= round trips of every kind of file, content and behaviour
     for name in (["udt", "tb_simple", "hiv"] + (["usdt", "hypertension", "tb", "diabetes"] if thorough else [])):
         P = at.demo(name, do_run=False)
@@ -428,14 +451,19 @@ def run(prop, tier):
         year = float(P.settings.sim_start + 2)
         lab = lambda what: dict(model=name, what=what)
         try:
-            np.random.seed(C.seed())
-            pr = at.reconcile(P, ps, pg, year, max_time=4, baseline_bounds=0.3, outcome_bounds=0.3, unit_cost_bounds=0.2)[0]
-            pr2 = at.ProgramSet.from_spreadsheet(pr.to_spreadsheet(), framework=P.framework, data=P.data)
-            ins_r = at.ProgramInstructions(start_year=year)
-            records.append(dict(id=rid, kind="same", a=dg(progset_content(pr)), b=dg(progset_content(pr2))))
-            index[rid] = dict(label=lab("reconciled program set vs rebuilt from its own export (visible content)"))
-            rid += 1
-            rid = close_records(records, index, rid, lab("simulation with the reconciled program set vs the one rebuilt from its export"), P.run_sim(ps, pr, ins_r, store_results=False), P.run_sim(ps, pr2, ins_r, store_results=False))
+            book_years = [float(y) for y in pg.tvec]
+            off_book = [y for y in (year + 0.5, year + 1.5, year + 2.5) if y not in book_years][0]
+            for what_, yr_, kw_ in (("all bounds", year, dict(baseline_bounds=0.3, outcome_bounds=0.3, unit_cost_bounds=0.2)), ("baseline bounds only", year, dict(baseline_bounds=0.3)),
+                                    ("a year that is not a column of the program book", off_book, dict(unit_cost_bounds=0.2))):
+                lab = lambda what, what_=what_: dict(model=name, what=what, reconciliation=what_)
+                np.random.seed(C.seed())
+                pr = at.reconcile(P, ps, pg, yr_, max_time=4, **kw_)[0]
+                pr2 = at.ProgramSet.from_spreadsheet(pr.to_spreadsheet(), framework=P.framework, data=P.data)
+                ins_r = at.ProgramInstructions(start_year=yr_)
+                records.append(dict(id=rid, kind="same", a=dg(progset_content(pr)), b=dg(progset_content(pr2))))
+                index[rid] = dict(label=lab("reconciled program set vs rebuilt from its own export (visible content)"))
+                rid += 1
+                rid = close_records(records, index, rid, lab("simulation with the reconciled program set vs the one rebuilt from its export"), P.run_sim(ps, pr, ins_r, store_results=False), P.run_sim(ps, pr2, ins_r, store_results=False))
         except Exception as ex:
             V.violation("C16 reconcile / export / import raised %s" % type(ex).__name__, dict(model=name, error=str(ex)[:300]))
     # ================= framework round trips of library frameworks with structure the three above lack: two parameters in one
